@@ -228,8 +228,7 @@ def c1_tt(fb, rep):
     rep.extra['static_storage_writers'] = sorted(set(ssw))[:80]
 
 
-def c2_rest(fb, rep):
-    clause = 'C14.2'
+def accumulators_reset(fb, rep, clause):
     # the per-search statistics accumulators of the communicator (nodes / tablebase hits reported by helpers) are part of
     # the node count the next search reports and stops on: every search start resets them, whatever the pool looks like
     si = fb.find1('Communicator::sendInitSearch')
@@ -253,6 +252,11 @@ def c2_rest(fb, rep):
             R.must_pass_between(rep, it_, clause, 'iterativeDeepening starts every search with sendInitSearch', None,
                                 lambda e: e is not None and e.get('k') == 'call' and cname(e) in ('Search::negaScoutRoot', 'Search::negaScout'),
                                 R.is_named_call('Communicator::sendInitSearch'))
+
+
+def c2_rest(fb, rep):
+    clause = 'C14.2'
+    accumulators_reset(fb, rep, clause)
     ctor = fb.find1('EngineControl::EngineControl')
     if rep.need(clause, ctor, 'EngineControl::EngineControl'):
         lam = None
